@@ -10,9 +10,9 @@ use neurons::tensor::{Data, Shape, Tensor};
 pub fn meta(ctx: &Ctx) -> Meta {
     Meta {
         rule: if ctx.tier.thorough() {
-            "ALL 2^32 bit patterns (the finite ones) x {ReLU, leaky ReLU, sigmoid, tanh, linear} x {forward, backward} through the public Function API as vectors; the same values as CxHxW tensors must give bit-identical results (differential). Soft-max: all vectors of length 1..4 over {0,+-0.5,+-1,+-10,+-88,+-1e4,+-MAX,1e-40}, vector and CxHxW, shift invariance for exact shifts. Non-trivial = every distinct finite pattern".into()
+            "ALL 2^32 bit patterns (the finite ones) x {ReLU, leaky ReLU, sigmoid, tanh, linear} x {forward, backward} through the public Function API as vectors; the same values as CxHxW tensors must give bit-identical results (differential). Soft-max: all vectors of length 1..4 over {0,+-0.5,+-1,+-10,+-88,+-1e4,+-MAX,1e-40}, plus lengths 5..1003 (alphabet rotations, one large logit at every position, all-negative), vector and CxHxW, shift invariance for exact shifts. Non-trivial = every distinct finite pattern".into()
         } else {
-            "every exponent x sign x all 2^7 leading-mantissa patterns x 8 low-bit fillings, plus +-4096-pattern neighbourhoods of 0, of the exp/cosh thresholds (16.6,17.3,44.4,87.3,88.7,103.9) and of MAX, x 5 activations x {forward, backward}, vector and CxHxW (bit-identical). Soft-max: all vectors of length 1..4 over a 14-value alphabet incl. +-MAX, shift invariance. Non-trivial = every distinct finite pattern".into()
+            "every exponent x sign x all 2^7 leading-mantissa patterns x 8 low-bit fillings, plus +-4096-pattern neighbourhoods of 0, of the exp/cosh thresholds (16.6,17.3,44.4,87.3,88.7,103.9) and of MAX, x 5 activations x {forward, backward}, vector and CxHxW (bit-identical). Soft-max: all vectors of length 1..4 over a 14-value alphabet incl. +-MAX, plus lengths 5..1003 (alphabet rotations, one large logit at every position, all-negative), shift invariance. Non-trivial = every distinct finite pattern".into()
         },
         bound: if ctx.tier.thorough() { "complete over the 2^32 patterns".into() } else { "structured cover of the float lattice (about 6.4e5 patterns); thorough tier is complete".into() },
         exhaustive: ctx.tier.thorough(),
@@ -350,6 +350,25 @@ fn softmax_all() -> Report {
                 code /= 14;
             }
             vecs.push(v);
+        }
+    }
+    // longer vectors (10 classes, lengths around 8 / 16 / 32 / 64, 100, 1003): alphabet cycled with every rotation,
+    // one large logit at every position, all-negative vectors
+    for n in [5usize, 7, 8, 9, 10, 12, 15, 16, 17, 31, 33, 64, 65, 100, 1003] {
+        for rot in 0..14usize {
+            for stride in [1usize, 3, 5] {
+                vecs.push((0..n).map(|e| SM[(rot + e * stride) % 14]).collect());
+            }
+        }
+        for big in [100.0f32, 1.0e4, f32::MAX] {
+            for p in (0..n).filter(|p| n <= 17 || *p < 3 || *p + 9 >= n || *p % 8 == 0) {
+                let mut v = vec![0.0f32; n];
+                v[p] = big;
+                vecs.push(v.clone());
+                let mut v = vec![-big; n];
+                v[p] = -0.5 * big;
+                vecs.push(v);
+            }
         }
     }
     let chunks: Vec<&[Vec<f32>]> = vecs.chunks(512).collect();
